@@ -73,6 +73,7 @@ class Script:
         self._clock = float(self.profile.get("clock_start", 0.0))
         self._ts = 0
         self._n_failed = 0
+        self._n_metrics = 0
         self.drain = False
 
     @classmethod
@@ -131,6 +132,13 @@ class Script:
                 else:
                     metric = r.randint(0, p.get("metric_grid", 40)) / 4.0
                     cost = r.randint(0, 12) / 4.0
+                    if "p_nonfinite" in p:
+                        # diverged evaluations: the metric is NaN / +-inf; ``first_nan``: the very first value of the
+                        # run is NaN (cost and timestamp stay finite)
+                        if (p.get("first_nan") and self._n_metrics == 0) or r.random() < p["p_nonfinite"]:
+                            metric = float("nan") if (p.get("first_nan") and self._n_metrics == 0) else \
+                                r.choice([float("nan"), float("nan"), float("inf"), float("-inf")])
+                self._n_metrics += 1
                 reps.append([metric, cost, float(ts)])
             return [reps, status]
         v = self._next("world", gen, [[], "InProgress"])
@@ -385,8 +393,9 @@ def make_backend_class():
             for t, r in results:
                 m, c = float(r["m"]), float(r[ST_WORKER_COST])
                 tr["evaluations"] += 1
-                tr["min_m"] = m if tr["min_m"] is None else min(tr["min_m"], m)
-                tr["max_m"] = m if tr["max_m"] is None else max(tr["max_m"], m)
+                if m == m:   # NaN is not below / above any threshold: "an evaluation reports a value below / above"
+                    tr["min_m"] = m if tr["min_m"] is None else min(tr["min_m"], m)
+                    tr["max_m"] = m if tr["max_m"] is None else max(tr["max_m"], m)
                 tr["cost_by_trial"][t] = max(tr["cost_by_trial"].get(t, c), c)
             return status_dict, results
 
